@@ -10,6 +10,7 @@ import "errors"
 // Intrinsics of the engine (no bodies: never compiled natively).
 func symCard(bits uint64) uint64
 func symSize(bits uint64) uint64
+func symSerSize(bits uint64) uint64
 func symOutOfBound(msg string)
 
 // A Bitmap is a sequence of 64-bit words; word i holds rows 64i .. 64i+63. Symbolic
@@ -129,6 +130,19 @@ func (rb *Bitmap) GetSizeInBytes() uint64 {
 	var n uint64
 	for _, x := range rb.w {
 		n += symSize(x)
+	}
+	return n
+}
+
+// GetSerializedSizeInBytes: the size of the serialised form is another function of the set
+// than the in-memory size (no relation between the two is assumed).
+func (rb *Bitmap) GetSerializedSizeInBytes() uint64 {
+	if len(rb.w) == 0 {
+		return symSerSize(0)
+	}
+	var n uint64
+	for _, x := range rb.w {
+		n += symSerSize(x)
 	}
 	return n
 }
